@@ -341,6 +341,8 @@ class Runner:
         sp = self.spec
         cls = EXC_CLASS[e.kind]
         err = mx.get_error()
+        if cls is None:                      # whatever modelx raises for it
+            cls = type(err).__name__ if isinstance(err, Exception) else "Exception"
         snippet_err = "sys.exit(1 if type(mx.get_error()).__name__ != %r else 0)" % cls
         if self.errmode == "handled":
             # (a failing top-level ItemSpace item has nothing to return: not asserted)
@@ -398,7 +400,8 @@ def dags(n):
 KIND_POOL = "SSSPPUVLDOKIZ"
 STYLES = ["plain", "plain", "plain", "comp", "gen", "lam", "sub"]
 SITES = {"zde": ["direct", "comp", "gen", "nested", "helper"], "boom": ["direct", "comp", "gen", "nested", "helper"],
-         "none": ["direct"], "depth": ["direct"], "kbi": ["direct"], "stop": ["direct"], "badret": ["direct"]}
+         "none": ["direct"], "depth": ["direct"], "kbi": ["direct"], "stop": ["direct"], "badret": ["direct"],
+         "badrefs": ["direct"]}
 MAIN_KINDS = ["zde", "boom", "none", "depth"]
 
 
@@ -421,7 +424,8 @@ def make_case(n, deps, p, fkind, rnd, extra_kinds=False):
     mode = rnd.choice(["defn", "edit", "flag"])
     kinds[p] = legal_kind(kinds[p], fkind, mode)
     if kinds[p] == "Z" and fkind == "none":
-        fkind = "badret"           # what "returning a value that is not allowed" means for a space formula
+        # what "returning a value that is not allowed" means for a space formula
+        fkind = "badret" if rnd.random() < 0.6 else "badrefs"
     shape = rnd.choice(["FRF", "FRF", "FFR1", "FFR2", "FR", "FF", "F"])
     p2 = rnd.randrange(n)
     fkind2 = rnd.choice(MAIN_KINDS + (["kbi"] if extra_kinds else []))
@@ -475,7 +479,7 @@ def make_case(n, deps, p, fkind, rnd, extra_kinds=False):
                 errmode=rnd.choice(["formula-error"] * 4 + ["original", "handled"]),
                 repair=rnd.choice(["formula", "formula", "native", "input"]),
                 space_allow=space_allow, model_allow=model_allow, allow_cfg=allow,
-                qstyle=rnd.choice(["call", "call", "sub"]))
+                qstyle=rnd.choice(["call", "call", "sub"]), pad=rnd.random() < 0.3, lam_multi=rnd.random() < 0.5)
 
 
 def run_case(res, c):
@@ -496,7 +500,8 @@ def run_case(res, c):
     elif second and mode2 == "flag":
         mode2 = "edit"
         f2 = Fail(f2.kind, f2.when, f2.site, cond=False)
-    spec = Spec(nodes, space_allow=c["space_allow"], model_allow=c["model_allow"])
+    spec = Spec(nodes, space_allow=c["space_allow"], model_allow=c["model_allow"], pad=c["pad"],
+                lam_multi=c["lam_multi"])
     small = "depth" in (f1.kind, f2.kind if second else None)
     base_tags = {"partA", "mode-" + mode, "err-" + c["errmode"], "order-" + c["order"]}
     hist_key = ("A", mode, shape, c["order"], c["warm"], c["errmode"], c["repair"], c["allow_cfg"], c["qstyle"])
